@@ -835,6 +835,13 @@ impl Collector {
         }
     }
 
+    /// Wait until the collector's own bookkeeping has caught up: no response is half-recorded
+    /// ("about to write" stamped, "written" not yet). The peer can see a response before the task
+    /// that wrote it gets to note that it did. Call this before taking the records to judge them.
+    pub fn settle(&self) -> bool {
+        self.wait_until(Duration::from_secs(5), |recs| recs.iter().all(|r| r.responding.is_none() || r.done.is_some()))
+    }
+
     pub fn shutdown(&self) {
         self.shared.shutdown.send_replace(true);
         self.shared.gate.send_replace(true);
